@@ -7,6 +7,9 @@ pub mod finalstage;
 pub mod param;
 pub mod srate;
 pub mod system;
+pub mod lfo;
+pub mod modsys;
+pub mod tweener;
 pub mod units;
 
 pub fn suite_salt(name: &str) -> u64 {
@@ -21,6 +24,9 @@ pub fn gen(suite: &str, rng: &mut Rng, n: usize, thorough: bool, stats: &mut Sta
 		"srate" => srate::gen(rng, n, thorough, stats),
 		"final" => finalstage::gen(rng, n, thorough, stats),
 		"system" => system::gen(rng, n, thorough, stats),
+		"lfo" => lfo::gen(rng, n, thorough, stats),
+		"tweener" => tweener::gen(rng, n, thorough, stats),
+		"modsys" => modsys::gen(rng, n, thorough, stats),
 		_ => panic!("unknown suite {}", suite),
 	}
 }
@@ -32,6 +38,9 @@ pub fn run(suite: &str, ops: &[String]) -> Vec<String> {
 		"srate" => srate::run(ops),
 		"final" => finalstage::run(ops),
 		"system" => system::run(ops),
+		"lfo" => lfo::run(ops),
+		"tweener" => tweener::run(ops),
+		"modsys" => modsys::run(ops),
 		_ => panic!("unknown suite {}", suite),
 	}
 }
